@@ -27,7 +27,8 @@ from dsim.world import World
 ID = 'C07'
 LEVEL = 'fault_enumeration'
 CLASSES = [('cuts_writer', 4), ('cuts_foreign', 4), ('crash', 1),
-           ('overtake', 1), ('length', 3), ('length_delta', 2)]
+           ('overtake', 1), ('follow', 1), ('length', 3),
+           ('length_delta', 2)]
 TIERS = {'quick': {'chunk': 10, 'budget_s': 25.0},
          'thorough': {'chunk': 40}}
 RULE = ('per generated file (writer- or foreign-produced) up to 4000 bytes '
@@ -63,7 +64,7 @@ NONNUMERIC = ['abc', '1.5', '1e3', '0x10', '12a', '-', '.', 'x1', '1-1',
 def generate(rng, tier, cls):
     bs = rng.choice([None, None, 1, 5, 16, 64, 97, 1000])
 
-    if cls in ('cuts_writer', 'crash', 'overtake') or \
+    if cls in ('cuts_writer', 'crash', 'overtake', 'follow') or \
        (cls in ('length', 'length_delta') and rng.chance(0.5)):
         k = 3 if tier == 'thorough' else 2
         main, ops = gen.gen_history(rng, max_changes=k, max_files=k,
@@ -104,6 +105,14 @@ def generate(rng, tier, cls):
                           else rng.randint(0, 1500)}]
     elif cls == 'overtake':
         scn['overtake_after'] = rng.randint(0, len(prod.get('ops', ())) + 1)
+    elif cls == 'follow':
+        # one long-lived reader following the file while it grows: every
+        # moment of it is a cut at a section boundary, seen by a reader that
+        # has already read what came before
+        n = len(prod.get('ops', ())) + 1
+        order = ['P1'] * n + ['R1'] * (n + 2)
+        rng.shuffle(order)
+        scn['follow_schedule'] = order
     elif cls == 'length_delta':
         # every small delta on every content section of the file
         scn['length_deltas'] = [-5, -4, -3, -2, -1, 1, 2, 3, 4, 5,
@@ -561,6 +570,43 @@ def execute(scn, L):
         if out.nontrivial:
             out.probe('producer_crashed_mid_file')
 
+        return out
+
+    if 'follow_schedule' in scn:
+        rspec = {'id': 'R1', 'kind': 'reader', 'file': fname, 'follow': True,
+                 'block_size': bs}
+        s2 = dict(scn, faults=[])
+        s2['schedule'] = [x for x in scn['follow_schedule']
+                          if x in ('P1', 'R1')][:2000]
+        w1, _ = run_producer(s2, L, out, extra_actors=[rspec])
+        w1.run()
+        out.absorb(w1)
+        ra = w1.actors['R1']
+        out.evals += 1
+
+        if w1.visible(fname) != intact:
+            out.discarded = 'follow-file-differs'
+            return out
+
+        cls = judge(out, 'follow', R_full, ra.records, ra.end, ra.exc, L,
+                    ctx, cut=len(intact))
+
+        if cls == 'ok' or not out.violations:
+            if ra.end != 'eof' or len(ra.records) != len(R_full):
+                out.violate('C07.follower-stops-early', '%s:%d/%d' % (
+                    ra.end, len(ra.records), len(R_full)),
+                    dict(ctx, exc=exc_summary(ra.exc, L)
+                         if ra.exc is not None else None))
+
+        live = getattr(ra, 'followed_live', 0)
+
+        if live >= 2:
+            out.probe('records_read_while_producer_still_writing')
+
+        out.faults['followed_growing_file'] = 1
+        out.states.add('follow|%s|%s' % (cls, min(live, 5)))
+        out.case_key = pipe.scn_digest([fdig, 'follow', s2['schedule']])
+        out.nontrivial = live >= 1
         return out
 
     if 'overtake_after' in scn:
